@@ -25,6 +25,8 @@ type ObRun struct {
 	Encoded  map[string]int
 	Inputs   []*Term
 	Uses     map[string]int
+	Asserted map[*Term]bool
+	UsedGhost bool
 	Proved   string
 	TermSize int
 }
@@ -161,6 +163,8 @@ func (r *ObRun) execute() (c *Ctx) {
 	r.Encoded = c.encoded
 	r.Inputs = c.inputs
 	r.Uses = c.contractUse
+	r.Asserted = c.asserted
+	r.UsedGhost = c.usedGhost
 	return c
 }
 
@@ -194,7 +198,7 @@ func (r *ObRun) discharge(timeout time.Duration, workers int) {
 		go func() {
 			defer wg.Done()
 			defer func() { <-sem }()
-			dischargeOne(ob, mode, solvers, to, r.Inputs)
+			dischargeOne(ob, mode, solvers, to, r.Asserted)
 		}()
 	}
 	wg.Wait()
@@ -208,7 +212,7 @@ var selfCheckSamples = 6
 var searchSamples = 400
 var runSeed int64
 
-func dischargeOne(ob *Oblig, mode string, solvers []string, timeout time.Duration, inputs []*Term) {
+func dischargeOne(ob *Oblig, mode string, solvers []string, timeout time.Duration, asserted map[*Term]bool) {
 	start := time.Now()
 	defer func() { ob.Secs = time.Since(start).Seconds() }()
 	defer func() {
@@ -253,6 +257,7 @@ func dischargeOne(ob *Oblig, mode string, solvers []string, timeout time.Duratio
 	var vars []*Term
 	if mode == "int" {
 		tr := newIntTranslator()
+		tr.skipHyp = asserted
 		tr.scan(flattenAnd(ob.Hyp))
 		var iroots []*Term
 		for _, t := range flattenAnd(ob.Hyp) {
@@ -335,8 +340,8 @@ func (r *ObRun) refuteWithoutContracts() {
 			need = true
 		}
 	}
-	if !need || (len(r.Uses) == 0 && r.Err == "") || r.attr("use", "") == "" {
-		return
+	if !need || (len(r.Uses) == 0 && r.Err == "") || r.attr("use", "") == "" || r.UsedGhost {
+		return // (a ghost-parametrised harness means nothing without the contracts that maintain the ghosts)
 	}
 	d2 := *r.Dir
 	d2.Attrs = map[string]string{}
